@@ -175,9 +175,13 @@ type c13Oracle struct {
 	preP    *privSnap
 	classes map[string]bool
 	events  int
+	invites map[string]map[string]bool // session key -> lower-case channel -> invitation seen, not used, channel alive
 }
 
-func (o *c13Oracle) begin(i *IRCServer, c *hcase, rt *rapid.T) { o.classes = map[string]bool{} }
+func (o *c13Oracle) begin(i *IRCServer, c *hcase, rt *rapid.T) {
+	o.classes = map[string]bool{}
+	o.invites = map[string]map[string]bool{}
+}
 
 func (o *c13Oracle) pre(i *IRCServer, idx int, e ircgen.Entry) { o.preP = takePriv(i) }
 
@@ -189,11 +193,62 @@ func (o *c13Oracle) note(cls string) {
 	}
 }
 
+// post judges the entry and then advances the oracle's own record of invitations.
+//
+// An invitation belongs to the channel it was issued for: it is used up by the join it admits
+// and it ends with the channel (a channel of the same name created later by somebody else is
+// another channel). The implementation keeps its own table (Session.invitedTo); the record here
+// is driven by what was observed (an invitation appearing, a join, a channel or session going
+// away), so an invitation that outlives its channel or its use is seen at the next JOIN.
 func (o *c13Oracle) post(i *IRCServer, idx int, e ircgen.Entry, outs []out, pan string) *vh.Failure {
 	if pan != "" {
 		return nil
 	}
 	pre, post := o.preP, takePriv(i)
+	f := o.judge(pre, post, idx, e, outs)
+	if o.invites == nil {
+		o.invites = map[string]map[string]bool{}
+	}
+	for k, inv := range o.invites {
+		if post.sess[k] == nil {
+			delete(o.invites, k)
+			continue
+		}
+		for cn := range inv {
+			if pre.chans[cn] != nil && post.chans[cn] == nil {
+				delete(inv, cn) // the channel is gone
+			}
+		}
+	}
+	for k, ps := range post.sess {
+		p0 := pre.sess[k]
+		for cn := range ps.invited {
+			if p0 == nil || !p0.invited[cn] {
+				if o.invites[k] == nil {
+					o.invites[k] = map[string]bool{}
+				}
+				o.invites[k][cn] = true
+			}
+		}
+		if p0 != nil {
+			for cn := range p0.invited {
+				if !ps.invited[cn] && o.invites[k] != nil {
+					delete(o.invites[k], cn) // the implementation dropped it (used, or cleared)
+				}
+			}
+		}
+		// used: the session became a member of a restricted channel
+		for cn, qc := range post.chans {
+			pc := pre.chans[cn]
+			if pc != nil && qc.members[k] && !pc.members[k] && (strings.Contains(pc.modes, "i") || strings.Contains(pc.modes, "x")) && o.invites[k] != nil {
+				delete(o.invites[k], cn)
+			}
+		}
+	}
+	return f
+}
+
+func (o *c13Oracle) judge(pre, post *privSnap, idx int, e ircgen.Entry, outs []out) *vh.Failure {
 	if e.Kind == "config" || e.Kind == "create" || e.Kind == "mod" {
 		return nil
 	}
@@ -466,7 +521,12 @@ func (o *c13Oracle) post(i *IRCServer, idx int, e ircgen.Entry, outs []out, pan 
 				}
 				continue
 			}
-			invited := actor.invited[cn]
+			// invited: the implementation says so AND the invitation is one this oracle saw being
+			// issued for the channel as it exists now and not used since
+			invited := actor.invited[cn] && o.invites[actorKey][cn]
+			if actor.invited[cn] && !o.invites[actorKey][cn] {
+				o.note("join-with-invitation-the-oracle-considers-void")
+			}
 			isX := strings.Contains(pc.modes, "x")
 			isI := strings.Contains(pc.modes, "i")
 			isK := strings.Contains(pc.modes, "k")
